@@ -94,8 +94,18 @@ fn pool_side_accounts(l: &Ledger, lg: &Legs) -> Vec<(Pubkey, Option<Vec<u8>>)> {
     keys.into_iter().map(|k| (k, l.data(&k).map(|d| d.to_vec()))).collect()
 }
 
+/// a mint whose transfers move exactly the stated amount: a classic SPL mint, or a Token-2022 mint that carries neither a
+/// transfer-fee configuration nor a transfer hook (so routes that mix the two token programs are judged like plain ones)
 fn is_plain(l: &Ledger, m: &Pubkey) -> bool {
-    l.get(m).map(|a| a.owner == ix::tok()).unwrap_or(false)
+    let Some(a) = l.get(m) else { return false };
+    if a.owner == ix::tok() {
+        return true;
+    }
+    if a.owner != ix::tok22() {
+        return false;
+    }
+    let exts = crate::decode::tlv_entries(&a.data);
+    !exts.iter().any(|(t, _)| *t == 1 || *t == 14)
 }
 
 impl C17 {
